@@ -53,7 +53,7 @@
  "name": "unixfd_open_rw",
  "props": ["C13"],
  "level": "U",
- "tier": "wip",
+ "tier": "obs",
  "harness": "h_unixfd_open_rw",
  "enforce": ["unixfd_open"],
  "replace": ["unix_open_channel"],
